@@ -939,7 +939,8 @@ def _deep(v):
     if isinstance(v, str):
         return ("s", str(v))
     if isinstance(v, (tuple, list)):
-        return (type(v).__name__, tuple(_deep(e) for e in v))
+        # numpy may turn a column of equal-length tuples into a 2-D array: list and tuple are not told apart
+        return ("seq", tuple(_deep(e) for e in v))
     return ("other", repr(v))
 
 
@@ -1097,8 +1098,10 @@ def _roundtrip(s, case, root):
     evals = 0
     for name, fn, wkw, sep in formats:
         path = os.path.join(root, fn)
-        # one signature family for all delimited files (the format is in the message); bz2 naming is separate
-        sig = "delimited-bz2" if name.endswith("bz2") else "delimited" + zr
+        # one signature family for all delimited files (the format is in the message); reading what was
+        # written under a bz2 name has its own signature for the write/load steps
+        csig = "delimited" + zr
+        sig = "delimited-bz2" if name.endswith("bz2") else csig
         ok, _ = s.call(sig + "/write", lambda: T.write(path, **wkw))
         if not ok:
             continue
@@ -1108,7 +1111,7 @@ def _roundtrip(s, case, root):
         ok, got = call_io(s, sig + "/load", lambda: load_table(path, **rkw))
         evals += 1
         if ok:
-            check_loaded(s, sig, got, t, sep, False, f"write/load_table {fn} of {what0}", with_index=True)
+            check_loaded(s, csig, got, t, sep, False, f"write/load_table {fn} of {what0}", with_index=True)
     for name, fn in (("json", "t.json"), ("pickle", "t.pickle")):
         path = os.path.join(root, fn)
         ok, _ = s.call(name + "/write", lambda: T.write(path))
